@@ -17,7 +17,9 @@ CONSTANTS Depth, ReadsResidue
 StackPats == {"zero", "ones", "a5", "count", "countm1", "rand"}
 \* residue left in freed blocks of the sizes the call will ask for, and blocks handed out pre-filled
 HeapPats == {"zero", "ones", "count", "fill00", "fillA1", "fill7F", "fillFE"}
-PrevKinds == {"same_api_same_count", "same_api_other_count", "other_api"}
+\* same_buffer: the previous call read the SAME input buffer (address, length, first and last element) holding
+\* other contents -- what a caller that refills one buffer does, and what an address-keyed memo cannot tell apart
+PrevKinds == {"same_api_same_count", "same_api_other_count", "other_api", "same_buffer"}
 Calls == {"c1", "c2"}
 
 VARIABLES ctx, sched, memo
